@@ -86,7 +86,7 @@ def perturb(rng, spec):
     s = {k: (list(v) if isinstance(v, list) else v) for k, v in spec.items()}
     d = len(s["dims"])
     a = rng.randrange(d)
-    how = rng.choice(["same", "origin", "spacing", "dims", "swap", "loc", "drop", "same", "rect_bounds", "rect_bounds"])
+    how = rng.choice(["same", "origin", "spacing", "dims", "swap", "loc", "drop", "same", "rect_bounds", "rect_bounds", "crs"])
     if how == "rect_bounds":
         # a rectilinear grid with the same node count and the same first and last node on every axis as the uniform one, one
         # interior node moved (when an axis has an interior node and room to move it): other data locations
@@ -98,7 +98,7 @@ def perturb(rng, spec):
         else:
             how = "rect_same"
         order, rev, inc = rng.choice(list(gu.layouts(d)))
-        return {"kind": "rect", "axes": axes, "order": order, "rev": rev, "inc": inc, "loc": s["loc"]}, how
+        return {"kind": "rect", "axes": axes, "order": order, "rev": rev, "inc": inc, "loc": s["loc"], "crs": s.get("crs")}, how
     if how == "origin":
         s["origin"][a] += rng.choice([1, -1, 2])
     elif how == "spacing":
@@ -109,6 +109,9 @@ def perturb(rng, spec):
         b = (a + 1) % d
         for key in ("dims", "spacing", "origin"):
             s[key][a], s[key][b] = s[key][b], s[key][a]
+    elif how == "crs":
+        # the same numbers in another reference system (EPSG codes): other locations
+        s["crs"] = {None: 25833, 32632: rng.choice([25833, None]), 25833: 32632}[s.get("crs")]
     elif how == "loc":
         s["loc"] = "points" if s["loc"] == "cells" else "cells"
     elif how == "drop" and d >= 2:
@@ -124,6 +127,8 @@ def gen_compat_case(rng):
     dims = [rng.randint(1, 4) for _ in range(d)]
     order, rev, inc = rng.choice(list(gu.layouts(d)))
     a = gu.make_spec("uniform", dims, order, rev, inc, rng.choice(["cells", "points"]), rng.randint(0, 1))
+    if rng.random() < 0.3:
+        a["crs"] = 32632
     b, how = perturb(rng, a)
     case = {"type": "compat", "a": a, "b": b, "how": how}
     if rng.random() < 0.4:
@@ -353,13 +358,18 @@ def run_compat(case):
     if case.get("relocate"):
         # the same two objects asked again after one of them was switched between cell and point data (public setter):
         # the answer is about what the grids describe *now*
-        first = {"same": ga.dim == gb.dim and ga.data_location == gb.data_location and locset(ga) == locset(gb),
+        first = {"same": ga.dim == gb.dim and ga.data_location == gb.data_location and locset(ga) == locset(gb) and same_crs(case),
                  "compatible": out["compatible"], "compatible_rev": out["compatible_rev"], "eq": out["eq"]}
         tgt = gb if case["relocate"] == "b" else ga
         tgt.data_location = fm.Location.POINTS if tgt.data_location == fm.Location.CELLS else fm.Location.CELLS
         out.update({"first": first, "compatible": safe(ga.compatible_with, gb), "eq": safe(ga.__eq__, gb),
                     "compatible_rev": safe(gb.compatible_with, ga)})
     return out
+
+
+def same_crs(case):
+    """coordinates are locations only together with their reference system (taken from the case description)"""
+    return case["a"].get("crs") == case["b"].get("crs")
 
 
 def locset(g):
@@ -372,7 +382,7 @@ def oracle_compat(case, impl):
     if f and (f["compatible"] != f["same"] or f["compatible_rev"] != f["same"]):
         return ("compatible_with <=> same location kind and same set of data locations",
                 {"compatible": f["compatible"], "reverse": f["compatible_rev"], "same_locations": f["same"]})
-    same = ga.dim == gb.dim and ga.data_location == gb.data_location and locset(ga) == locset(gb)
+    same = ga.dim == gb.dim and ga.data_location == gb.data_location and locset(ga) == locset(gb) and same_crs(case)
     if impl["compatible"] != same or impl["compatible_rev"] != same:
         return ("compatible_with <=> same location kind and same set of data locations",
                 {"compatible": impl["compatible"], "reverse": impl["compatible_rev"], "same_locations": same})
@@ -487,7 +497,8 @@ def run(ctx, res):
         "coordinates are small integers, exactly representable; np.allclose tolerance and rounding are not modelled",
         "compatible_with is required to agree with 'same location kind and same set of data locations' "
         "(cell data and point data never count as the same locations)",
-        "crs is None on both sides (pyproj is not modelled)",
+        "reference systems are EPSG codes compared for equality (pyproj's equality of two different codes is taken as given); "
+        "in the conversion cases crs is None on both sides",
     ]
     pairs = list(all_pairs())
     if ctx.tier == "thorough":
